@@ -27,5 +27,5 @@ SliceBad(e, N, W) == {x \in ((1..e.rows) \X (1..e.cols)) \X (1..e.nd) :
 \* per-pixel grids: same cost inside the pixel's interval, NaN outside (first = scaled first sample, s = subpix)
 GridBad(e, G, S, nan) == {x \in ((1..e.rows) \X (1..e.cols)) \X (1..e.nd) :
                         LET r == x[1][1]  c == x[1][2]  D == e.first + x[2] - 1
-                        IN G[r][c][x[2]] # (IF D >= e.s * e.dmin[r][c] /\ D <= e.s * e.dmax[r][c] THEN S[r][c][x[2]] ELSE nan)}
+                        IN G[r][c][x[2]] # (IF 8 * D >= e.s * e.dmin8[r][c] /\ 8 * D <= e.s * e.dmax8[r][c] THEN S[r][c][x[2]] ELSE nan)}
 =============================================================================
